@@ -17,7 +17,7 @@ def spec(tier, seed):
     return {
         "jobs": jobs, "generated": {"h263/src/parser/reader.rs": gen},
         "functions": FUNCS, "stubs": [],
-        "rule": "operation sequences enumerated by the generator (%d sequences in %d harnesses this run): skip p; read n for phases 0..7 x widths (all 0..32 in thorough); all ordered pairs over a %d-symbol alphabet of (operation, width) in thorough (seeded sample in quick); every symbol at every phase; seeded random sequences of length 3..6; sources of 0..5 bytes for end-of-data straddling. Source bytes fully symbolic. After every operation value, Ok/Err kind and absolute position are compared with a bit-vector model; finally the next bits are read through the public API." % (nseq, len(hs), len(g.SYMS)),
+        "rule": "operation sequences enumerated by the generator (%d sequences in %d harnesses this run): skip p; read n for phases 0..7 x widths (all 0..32 in thorough); one step of every symbol of a %d-symbol alphabet of (operation, width) from every buffer fill level and phase (seeded 1/6 sample in thorough, 28 in quick); seeded ordered pairs of fixed-width operations followed by a third symbol (300 in thorough, 10 in quick); seeded random sequences of length 3..6; sources of 0..5 bytes for end-of-data straddling. Source bytes fully symbolic. After every operation value, Ok/Err kind and absolute position are compared with a bit-vector model; finally the next bits are read through the public API." % (nseq, len(hs), len(g.SYMS)),
         "bounds": ["source length 6 bytes (0..5 for the end-of-data family)", "operation widths from the alphabet; sequence length <= 6", "unwind 12 (50 where the resynchronising start-code search runs) with unwinding assertions"],
         "outside": ["symbolic widths / lengths (CBMC does not terminate on them: DESIGN.md probe log)", "sources longer than 6 bytes", "Read implementations that return short reads or transient errors", "signed reads of zero bits (undefined notion)",
                     "position after a *failed* variable-length-code read outside a transaction (documented as undefined by the reader)", "commit inside an open transaction (documented as invalid)"],
